@@ -264,7 +264,7 @@ def character(l, R):
 # ----------------------------------------------------------------------------- SymOrbits structure models
 SYMORB_INV = ["CachedTables", "IrrDefinition", "GroupAxioms", "GreyGroup", "SiteMapPermutation", "ShiftsIntegral", "CentreMap",
               "SiteAction", "TripleAction", "TripleInjective", "TripleInverse", "OrbitsPartition", "IrreducibleReach", "FlipCommutes",
-              "FullShellsAllowed", "MixedOrbitClosed"]
+              "FullShellsAllowed", "MixedOrbitClosed", "SubgroupClosed", "SubReach"]
 DEN = 4
 CELL = {"cubic": (4.0, 4.0, 4.0), "tetra": (4.0, 4.0, 6.0), "ortho": (4.0, 5.0, 6.0), "hex": (4.0, 4.0, 6.0)}
 
@@ -277,9 +277,9 @@ def lattice_of(lat):
     return np.diag([a, b, c])
 
 
-def symorb_cfg(lats, nsites, poscat, magnetic, invariants=SYMORB_INV):
-    return ("SPECIFICATION Spec\nCONSTANTS\n  DEN = %d\n  LATS = {%s}\n  NSITES = {%s}\n  POSCAT = \"%s\"\n  MAGNETIC = %s\n" % (
-        DEN, ", ".join(f'"{x}"' for x in lats), ", ".join(str(x) for x in nsites), poscat, '"%s"' % (magnetic if isinstance(magnetic, str) else ("z" if magnetic else "none"))) +
+def symorb_cfg(lats, nsites, poscat, magnetic, invariants=SYMORB_INV, subreps="sub"):
+    return ("SPECIFICATION Spec\nCONSTANTS\n  DEN = %d\n  LATS = {%s}\n  NSITES = {%s}\n  POSCAT = \"%s\"\n  MAGNETIC = %s\n  SUBREPS = \"%s\"\n" % (
+        DEN, ", ".join(f'"{x}"' for x in lats), ", ".join(str(x) for x in nsites), poscat, '"%s"' % (magnetic if isinstance(magnetic, str) else ("z" if magnetic else "none")), subreps) +
         "".join(f"INVARIANT {i}\n" for i in invariants) + "CHECK_DEADLOCK FALSE\n")
 
 
@@ -301,7 +301,7 @@ def symorb_structures(name, lats, nsites, poscat, magnetic=False, workers=WORKER
                  ops=[(tuple(tuple(r) for r in o["W"]), tuple(o["t"]), bool(o["tr"])) for o in s["ops"]],
                  amap=[[a - 1 for a in m] for m in s["amap"]], tvec=[[tuple(t) for t in m] for m in s["tvec"]],
                  rlist=[tuple(r) for r in s["rlist"]],
-                 tmap=s["tmap"], shells=frozenset(s["shells"]), mixed=frozenset(k - 1 for k in s["mixed"]), irr=frozenset((tuple(x[0]), x[1] - 1, x[2] - 1) for x in s["irr"]))
+                 tmap=s["tmap"], sub={k: sorted(n - 1 for n in v) for k, v in s["sub"].items()}, shells=frozenset(s["shells"]), mixed=frozenset(k - 1 for k in s["mixed"]), irr=frozenset((tuple(x[0]), x[1] - 1, x[2] - 1) for x in s["irr"]))
         d["key"] = (d["lat"], tuple(d["types"]), tuple(d["pos"]), tuple(d["mom"]))
         d["nsites"] = ns
         out.append(d)
